@@ -24,7 +24,10 @@ CONSTANTS Nodes,        \* all graph nodes (strings)
           Base,         \* finite base scalars (small naturals)
           NonFin,       \* subset of {"nan","inf"} allowed as assigned scalars
           Objs,         \* object identifiers, e.g. {1,2}; object 1 is live initially
-          Modes,        \* subset of {"none","ref","copy"}
+          Modes,        \* subset of {"none","ref","copy"}  ("ref" and "copy" take the same forks; they differ in what the
+                        \* ENVIRONMENT may do: under "copy" the caller may overwrite in place the buffers of values it assigned
+                        \* earlier - a stuttering step here, performed by the replay after every assignment in that mode -
+                        \* under "ref" it must not)
           MaxOps,
           Mk(_, _),     \* value constructor of a derived entry: Mk(n, env); MkTerm (terms) or MkSet (set/unset only)
           FixStaleFork, \* TRUE: an assignment made without auto-fork drops the held fork
